@@ -19,6 +19,20 @@ pub struct Outcome {
     pub preserving_with_ai: u32,
     pub ai_checkpoints: usize,
     pub stderr_log: Vec<String>,
+    /// rewritten commits only: path -> lines the commit adds
+    pub added: BTreeMap<String, BTreeMap<String, BTreeSet<u32>>>,
+    /// raw metadata of each note (parsed JSON)
+    pub meta: BTreeMap<String, serde_json::Value>,
+    pub fast_path_taken: u32,
+    pub tips: BTreeSet<String>,
+    /// lines that admit more than one answer (white space re-touched across commits,
+    /// chosen in a conflict resolution, filler): (commit, path, line) for rewritten
+    /// commits and ("branch:path", line) for blame
+    pub weak_note_lines: BTreeSet<(String, String, u32)>,
+    pub weak_blame_lines: BTreeSet<(String, u32)>,
+    /// what the content-addressed model expects for strictly judged lines:
+    /// ("branch:path", line) -> expected session hash (None = human)
+    pub expected_blame: BTreeMap<(String, u32), Option<String>>,
 }
 
 pub fn collect(e: &mut Engine) -> Outcome {
@@ -41,6 +55,8 @@ pub fn collect(e: &mut Engine) -> Outcome {
         if !co.ok() {
             continue;
         }
+        let h = e.w.head();
+        o.tips.insert(h);
         for p in e.w.tree_paths("HEAD") {
             if p == "README.base" {
                 continue;
@@ -53,7 +69,56 @@ pub fn collect(e: &mut Engine) -> Outcome {
             if v.raw_ok {
                 o.blames.insert(format!("{b}:{p}"), v.lines);
             }
+            if let Some(lines) = e.w.lines_at("HEAD", &p) {
+                for (i, l) in lines.iter().enumerate() {
+                    let weak = e.w.model.get(l).map(|en| !en.ws_touchers.is_empty() || !en.also_ok.is_empty() || !en.strict).unwrap_or(true);
+                    if weak {
+                        o.weak_blame_lines.insert((format!("{b}:{p}"), (i + 1) as u32));
+                    } else if let Some(en) = e.w.model.get(l) {
+                        let h = e.w.hash_of(en.last);
+                        o.expected_blame.insert((format!("{b}:{p}"), (i + 1) as u32), h);
+                    }
+                }
+            }
         }
+    }
+    for (c, kind) in e.produced_by.clone() {
+        if !(kind.starts_with("rebase") || kind.starts_with("cherry-pick")) || !o.commits.contains(&c) {
+            continue;
+        }
+        let parent = e.w.first_parent(&c);
+        let mut m = BTreeMap::new();
+        for p in e.w.changed_paths(&parent, &c) {
+            let added = e.w.added_lines(&parent, &c, &p);
+            if let Some(lines) = e.w.lines_at(&c, &p) {
+                for n in &added {
+                    if let Some(l) = lines.get((*n - 1) as usize) {
+                        let weak = e.w.model.get(l).map(|en| !en.ws_touchers.is_empty() || !en.also_ok.is_empty() || !en.strict).unwrap_or(true);
+                        if weak {
+                            o.weak_note_lines.insert((c.clone(), p.clone(), *n));
+                        }
+                    }
+                }
+            }
+            m.insert(p.clone(), added);
+        }
+        o.added.insert(c, m);
+    }
+    for (c, (_, _, raw)) in &o.notes {
+        if let Ok(n) = crate::notes::parse_note(raw) {
+            o.meta.insert(c.clone(), n.metadata);
+        }
+    }
+    if let Some(buf) = &e.w.sb.stderr_capture {
+        let t = String::from_utf8_lossy(buf);
+        if std::env::var_os("GAIV_DUMP_STDERR").is_some() {
+            for l in t.lines() {
+                if !l.contains("BENCHMARK") && !l.contains("perf") {
+                    eprintln!("| {}", l);
+                }
+            }
+        }
+        o.fast_path_taken = t.matches("Fast-path remapped authorship logs").count() as u32;
     }
     o.produced_by = e.produced_by.clone();
     o.taint = e.known_taint;
